@@ -19,6 +19,7 @@ def run(prog, tier, extra=None):
     res = Result("C18", "other")
     R1 = res.rule("C18.header", "generate_lite_block copies every identity/header field from the same field of the full block", floor=30)
     R2 = res.rule("C18.retention", "a transaction is replaced by a placeholder only if no input and no output key is listed", floor=2)
+    R4 = res.rule("C18.placeholder-leaf", "the value a receiver recomputes a placeholder's merkle leaf from is, in generate_lite_block, the omitted transaction's leaf hash", floor=1)
     R3 = res.rule("C18.ordinal", "a kept transaction gets the ordinal it has in the full block: the counter advances by a placeholder's txs_replacements", floor=1)
     lb = prog.body(BLK + "generate_lite_block")
     if lb is None:
@@ -127,6 +128,48 @@ def run(prog, tier, extra=None):
                                 chooser.loc(placeholder[0])))
             else:
                 res.sample({"rule": R2, "side": field, "test": [chooser.loc(x) for x in edges["sites"]], "verdict": "placeholder only when no listed key on this side"})
+    # R4: a placeholder stands for the omitted transaction's merkle leaf (its hash_for_signature). hash_for_signature is not a wire
+    # field; a receiver recomputes it with Transaction::generate_hash_for_signature, whose SPV branch reads some field(s) F of the
+    # decoded placeholder. The placeholders are "sufficient to recompute the commitment" only if generate_lite_block stores the omitted
+    # transaction's leaf hash in F (and F is on the wire).
+    TXP = CORE + "consensus::transaction::Transaction::"
+    gh = prog.body(TXP + "generate_hash_for_signature")
+    if gh is None:
+        raise LookupError("Transaction::generate_hash_for_signature not found")
+    chg = Chaser(gh)
+    spv_reads = set()
+    from ..fields import place_has_field
+    for blk in gh.blocks:
+        for st in blk["s"]:
+            if st[0] == "=" and place_has_field(st[1], "transaction::Transaction", "hash_for_signature") is not None:
+                e = chg.rvalue(st[2], 0)
+                if any(x[0] == "call" and x[1].endswith("crypto::hash") for x in walk(e)):
+                    continue        # the ordinary branch: hash of the signed bytes
+                for x in walk(e):
+                    if x[0] == "field" and x[2].endswith("transaction::Transaction"):
+                        spv_reads.add(x[3])
+    res.instance(R4)
+    wire = {f.split(".")[0] for f, w in cd.writer_table(prog.body(TXP + "serialize_for_net_with_hop")) if f}
+    if not spv_reads:
+        res.not_decided.append("C18.placeholder-leaf: generate_hash_for_signature has no field-derived branch (placeholders recomputed some other way)")
+    elif chooser is not None:
+        cch4 = Chaser(chooser)
+        for blk in chooser.blocks:
+            for st in blk["s"]:
+                if st[0] == "=" and st[2][0] == "agg" and st[2][1][0] == "adt" and st[2][1][1].endswith("transaction::Transaction"):
+                    names = st[2][1][4]
+                    for i, op in enumerate(st[2][2]):
+                        if i < len(names) and names[i] in spv_reads:
+                            v = cch4.origin(op)
+                            if not has_field(v, "transaction::Transaction", "hash_for_signature"):
+                                res.add(Finding(R4, "C18.placeholder-leaf|%s" % names[i],
+                                                "a receiver recomputes a placeholder's merkle leaf from Transaction.%s (generate_hash_for_signature, SPV branch), but "
+                                                "generate_lite_block fills that field with %s, not with the omitted transaction's leaf hash: after a wire round trip the "
+                                                "placeholders no longer recompute the header's commitment" % (names[i], show(v)[:40]), chooser.loc(0)))
+                            elif names[i] not in wire:
+                                res.add(Finding(R4, "C18.placeholder-leaf|%s|not-on-wire" % names[i], "Transaction.%s carries the placeholder's leaf but is not written by serialize_for_net" % names[i], chooser.loc(0)))
+                            else:
+                                res.sample({"rule": R4, "field": names[i], "verdict": "carries the omitted transaction's leaf hash and is on the wire"})
     # R3: the slips of a kept transaction are keyed by (block id, transaction ordinal, slip index). A receiver regenerates them from
     # the lite block, in which runs of omitted transactions are merged into placeholders; the ordinal handed to Transaction::generate
     # must therefore be a counter that a placeholder advances by the number of transactions it stands for (txs_replacements), not the
@@ -162,6 +205,10 @@ def run(prog, tier, extra=None):
     if n_calls == 0:
         res.instance(R3)
         res.add(Finding(R3, "C18.ordinal|anchors", "Block::generate no longer calls Transaction::generate (anchor moved?)", lb.loc(0)))
+    # "survives a wire round trip": the lite block travels in the ordinary block / transaction codecs
+    from ._include import include
+    include(res, prog, tier, extra, "c09", ["C09.layout", "C09.count-limits", "C09.container-domain", "C09.no-field-skipped", "C09.read-before-decode"],
+            "a lite block is a Block on the wire: it is read back only if writer and reader of Block and Transaction agree")
     res.explanation = (
         "Decides header coverage of the lite projection: every Block field that enters the signed bytes or the fixed wire header (plus hash and signature) is copied from "
         "the same field of the full block, merkle_root is recomputed from the projected transaction list, and the per-transaction chooser can build a placeholder only when "
